@@ -83,7 +83,8 @@ impl Reporter {
         }
     }
 
-    pub fn report(&self, v: Violation) {
+    pub fn report(&self, mut v: Violation) {
+        v.key = v.key.replace(' ', "_");
         let mut g = self.inner.lock().unwrap();
         match g.by_key.get_mut(&v.key) {
             Some(e) => {
@@ -114,6 +115,7 @@ impl Reporter {
     pub fn finish(&self, mut coverage: Value, assumptions: Vec<String>) -> i32 {
         let g = self.inner.lock().unwrap();
         let mut new_violations = 0u64;
+        let mut machinery_errors = 0u64;
         let mut known_hits = vec![];
         let mut viol_list = vec![];
         let replay_dir = PathBuf::from(format!("{VERIF_ROOT}/replays/{}", self.property));
@@ -122,6 +124,11 @@ impl Reporter {
                 .known
                 .iter()
                 .find(|k| k.status == "known" && k.key == *key);
+            if key.starts_with("machinery.") {
+                machinery_errors += 1;
+                eprintln!("MACHINERY {} ({} occurrences): {} :: {}", key, count, v.what, v.case);
+                continue;
+            }
             if let Some(k) = k {
                 println!(
                     "KNOWN-FINDING: property={} {} [key={} occurrences={}]",
@@ -191,7 +198,13 @@ impl Reporter {
             eprintln!("MACHINERY cannot write evidence {evpath}: {e}");
             return 2;
         }
-        if new_violations > 0 { 1 } else { 0 }
+        if machinery_errors > 0 {
+            2
+        } else if new_violations > 0 {
+            1
+        } else {
+            0
+        }
     }
 }
 
